@@ -21,6 +21,11 @@ for p in props:
             focus = "FOCUS FOR THIS ATTEMPT: the property quantifies over schedules / fault timings. Prefer a change whose breakage needs a particular INTERLEAVING of goroutines or a fault/cancellation/time-out landing at a particular moment (a narrowed or split critical section, a check-then-act window, a flag read outside its lock, a wake-up that can be lost, a goroutine that outlives its owner, a timer that is stopped or reset at the wrong moment) - something a sequential test of the same operations would never show. Your demonstration may force the interleaving with hooks, callbacks or channels that exist in the code or in your test's fakes."
         else:
             focus = "FOCUS FOR THIS ATTEMPT: prefer a change that needs a MULTI-STEP history (three or more operations in a particular order, e.g. state left behind by an earlier rejected / no-op / repeated operation), or two code sites that each look fine alone but disagree, or an object that is reused or shared between calls (aliasing, caching, memoisation keyed too coarsely) - rather than a single unusual input."
+    if wave >= 'w12':
+        if 'schedules' in over or 'fault_sequences' in over:
+            focus = "FOCUS FOR THIS ATTEMPT: prefer one of these categories, whichever fits the code best: (a) a deadlock, lost wake-up or goroutine that never ends which needs a specific interleaving of THREE parties (e.g. two clients and a writer, a closer and a reconnect and a timer); (b) an error / cancellation / time-out path that forgets to undo something (a registration, a reference count, a flag, a timer) so that the NEXT operation misbehaves; (c) a cache or memo introduced as an optimisation that a concurrent or later mutation does not invalidate. The breakage must need the specific interleaving or fault - a sequential happy-path test of the same operations must not show it."
+        else:
+            focus = "FOCUS FOR THIS ATTEMPT: prefer one of these categories, whichever fits the code best: (a) a cache / memo / fast path filled by a READ-ONLY operation (query, walk, lookup, conversion, validation) that a later mutation does not invalidate, so that the breakage needs read -> mutate -> read; (b) an error or rejection path that leaves partial state behind (half-applied update, counter already bumped, entry already inserted) which only a LATER operation exposes; (c) a boundary between two representations of the same thing (path encodings, origin in prefix vs path, typed value arms, map vs list) where two code sites normalise differently."
     prop_text = json.dumps({k: p[k] for k in ('id','title','statement','quantifier','why_tests_cant','anchors') if k in p}, indent=1)
     txt = f"""You are helping to evaluate a verification framework for the Go repository openconfig/gnmi (reference gNMI implementation: client library, CLI, caching collector with a timestamped path-tree cache and a Subscribe server). You have your OWN scratch git worktree of the repository at {wt} (a detached checkout of the current HEAD). Work ONLY inside {wt} and write your results to {out}/ . Never touch /repo or /verif and do not read anything under /verif.
 
